@@ -656,6 +656,32 @@ func (c *Client) write(quit <-chan struct{}, p []byte) error {
 	return nil
 }
 
+// WriteNoWait is like write, yet it does not wait for pending connects. The
+// read routine submits with it, as no one else does the (re)connect.
+func (c *Client) writeNoWait(p []byte) error {
+	// lock write
+	conn, ok := <-c.writeSem
+	switch {
+	case !ok:
+		return ErrClosed
+	case conn == connDown, conn == connPending:
+		c.writeSem <- conn // unlock
+		return ErrDown
+	}
+
+	err := writeTo(conn, p, c.PauseTimeout)
+	if err != nil {
+		if !nonNilIsAny(err, connClosedErrors) {
+			conn.Close() // signal read routine
+		}
+		c.writeSem <- connPending // unlock write; pending connect
+		return errors.Join(ErrSubmit, err)
+	}
+
+	c.writeSem <- conn // unlock write
+	return nil
+}
+
 // WriteBuffers submits the packet. Keep synchronised with write!
 func (c *Client) writeBuffers(quit <-chan struct{}, p net.Buffers) error {
 	conn, err := c.lockWrite(quit)
@@ -1206,7 +1232,7 @@ func (c *Client) readSlices() (message, topic []byte, err error) {
 				return nil, nil, err
 			}
 		}
-		err := c.write(nil, c.pendingAck)
+		err := c.writeNoWait(c.pendingAck)
 		if err != nil {
 			c.toOffline()
 			return nil, nil, err // keeps pendingAck to retry
@@ -1428,7 +1454,7 @@ func (c *Client) onPUBREL() error {
 		return fmt.Errorf("mqtt: internal error: ack %#x pending during PUBREL reception", c.pendingAck)
 	}
 	c.pendingAck = append(c.pendingAck, typePUBCOMP<<4, 2, byte(packetID>>8), byte(packetID))
-	err = c.write(nil, c.pendingAck)
+	err = c.writeNoWait(c.pendingAck)
 	if err != nil {
 		return err // causes resubmission of PUBCOMP
 	}
